@@ -14,6 +14,7 @@ fn engine_by_name(n: &str) -> Option<Box<dyn Engine>> {
     match n {
         "sinks" => Some(Box::new(engines::sinks::Sinks)),
         "pq" => Some(Box::new(engines::pq::Pq)),
+        "sched" => Some(Box::new(engines::sched::Sched)),
         _ => None,
     }
 }
@@ -62,7 +63,9 @@ fn main() {
         i += 2;
     }
     // Model code panics are part of some scenarios; keep the default hook quiet.
-    std::panic::set_hook(Box::new(|_| {}));
+    if std::env::var("VERIF_PANIC_VERBOSE").is_err() {
+        std::panic::set_hook(Box::new(|_| {}));
+    }
     let report = runner::run(engine.as_ref(), &o);
     let js = report.to_json().to_string();
     match report_path {
